@@ -278,7 +278,10 @@ impl<const N: usize> Live<N> {
             1 => (2 * N as u32).min(32768).max(N as u32),
             _ => 32768,
         };
-        let ts = TState::new(DeviceType::Block, 0, 1, max);
+        let mut ts = TState::new(DeviceType::Block, 0, 1, max);
+        // every other triple of queues sits on a transport that requires the legacy (contiguous) layout: the
+        // ring features a queue was created with hold there just the same
+        ts.legacy = (k / 3) % 2 == 1;
         let (mut t, st) = ModelTransport::new(ts);
         let q = guarded(|| VirtQueue::<LedgerHal, N>::new(&mut t, 0, indirect, event_idx, ap))?.map_err(|e| format!("{:?}", e))?;
         let reg = st.borrow().queues[0];
@@ -405,7 +408,16 @@ impl<const N: usize> Live<N> {
             Err(p) => {
                 c.tag("add:panic");
                 let _ = p;
-                "panic".to_string()
+                if has_empty_buf {
+                    // the refusal of an empty buffer (by a panic: the call was abandoned part-way, the case ends)
+                    self.stop = true;
+                    "refused-empty".to_string()
+                } else {
+                    if !self.hostile {
+                        c.fail(format!("[C03] add of {} non-empty buffers panicked under the caller contract (free descriptors {}, driver state {:?})", in_lens.len() + out_lens.len(), free_before, st_before));
+                    }
+                    "panic".to_string()
+                }
             }
             Ok((Err(e), _, _)) => {
                 c.tag(format!("add:{:?}", e));
@@ -424,7 +436,23 @@ impl<const N: usize> Live<N> {
                 if self.q.verif_state() != st_before {
                     c.fail(format!("[C03] refused add changed the queue's bookkeeping (num_used, free_head, avail_idx, last_used_idx): {:?} -> {:?}", st_before, self.q.verif_state()));
                 }
-                err_str(e)
+                if has_empty {
+                    // nothing was published: the per-store validation goes on for the rest of the history
+                    // (a refusal that leaked descriptors shows up there, when they are handed out again)
+                    STORE.with(|s| {
+                        if let Some(ctx) = s.borrow_mut().as_mut() {
+                            ctx.suspended = false;
+                        }
+                    });
+                }
+                let capacity_refusal = k == 0 || if self.indirect { free_before == 0 || k > N } else { k > free_before };
+                if has_empty && !capacity_refusal && halev.is_empty() && evs == "-" && self.q.verif_state() == st_before {
+                    // an empty buffer on the direct path is refused by a panic today; a clean error is
+                    // the same refusal (both are printed alike, the history goes on from the unchanged state)
+                    "refused-empty".to_string()
+                } else {
+                    err_str(e)
+                }
             }
             Ok((Ok(t), ins, outs)) => {
                 c.tag("add:ok");
@@ -515,9 +543,9 @@ impl<const N: usize> Live<N> {
                 format!("ok token={}", t)
             }
         };
-        if res == "panic" {
-            // the call was abandoned part-way: the case ends here and nothing after it is compared
-            c.step(op, "panic".to_string());
+        if res == "panic" || res == "refused-empty" {
+            // (a panic: the call was abandoned part-way, the case ends here and nothing after it is compared)
+            c.step(op, res.clone());
         } else {
             c.step(op, format!("{} | {} | {}", res, evs, self.priv_str()));
         }
@@ -529,6 +557,10 @@ impl<const N: usize> Live<N> {
     /// submission must be refused (the code panics in `set_buf`), never published with a truncated length.
     /// The case ends here.
     pub fn add_huge(&mut self, c: &mut Case) {
+        // one 4 GiB mapping at a time, whatever the number of worker threads (the harness runs under an
+        // address-space cap)
+        static ONE_AT_A_TIME: std::sync::Mutex<()> = std::sync::Mutex::new(());
+        let _guard = ONE_AT_A_TIME.lock().unwrap_or_else(|e| e.into_inner());
         let small = vec![1u8; 8];
         // zero pages are mapped lazily: the memory is never touched
         let mut huge = vec![0u8; (1usize << 32) + 16];
@@ -1357,7 +1389,7 @@ pub fn run(ctx: &Ctx, prop: &str) -> (Vec<Case>, String, bool, BTreeMap<String, 
         // framebuffer and the cursor) must be DMA addresses as well
         let mut g = crate::c20_cmd::gpu_cases(ctx, "C04", ctx.tier.pick(200, 4000));
         for c in g.iter_mut() {
-            c.oracle_failures.retain(|f| f.contains("is not live DMA memory"));
+            c.oracle_failures.retain(|f| f.contains("is not live DMA memory") || f.contains("while it is attached as backing") || f.contains("no longer allocated after"));
             for f in c.oracle_failures.iter_mut() {
                 *f = format!("[C04] {}", f);
             }
